@@ -9,11 +9,12 @@
    2262, they agree with plain integer arithmetic on nanoseconds followed by a clamp — for
    EVERY int64 in trim.txt, including those for which time.Unix wraps.
 
-   Directory.  [subdirs] are the 256 two-hex-digit subdirectories in order, [rootobjs]
-   everything else in the cache root except trim.txt (README, fuzz/, foreign files and
-   directories, treated as opaque objects), [trimtxt] the contents of trim.txt (None =
-   missing or unreadable).  An object carries its name, mtime, an opaque content and a kind
-   that says how os.Stat and os.Remove answer for it. *)
+   Directory.  [subdirs] are the 256 two-hex-digit subdirectories in order (None = the
+   subdirectory does not exist or cannot be opened), [rootobjs] everything else in the cache
+   root except trim.txt (README, fuzz/, foreign files and directories, treated as opaque
+   objects), [trimtxt] the contents of trim.txt (None = missing), [trimblocked] says that
+   trim.txt can neither be read nor written (it is a directory).  An object carries its name,
+   mtime, an opaque content and a kind that says how os.Stat and os.Remove answer for it. *)
 From Coq Require Import List Bool ZArith.
 From Coq.Strings Require Import Byte.
 From GI Require Import Lib.Bytes Gen.CacheTrimConsts.
@@ -132,23 +133,32 @@ Definition decimal (z : Z) : bytes :=
 
 (* ------------------------------------------------------------------ directory *)
 
-(* how the object answers: KFile a regular file; KEmptyDir a directory os.Remove can remove;
+(* how the object answers: KFile a regular file; KLink a symbolic link to a regular file
+   outside the cache (Stat, Chtimes, reads and writes go to the target, Remove removes the
+   link; [omtime]/[odata] are the target's); KEmptyDir a directory os.Remove can remove;
    KFullDir a non-empty directory (os.Remove fails); KDangling a symbolic link whose target
    is missing (os.Stat and os.Chtimes fail) *)
-Inductive okind := KFile | KEmptyDir | KFullDir | KDangling.
+Inductive okind := KFile | KLink | KEmptyDir | KFullDir | KDangling.
 
 Definition okind_eqb (a b : okind) : bool :=
   match a, b with
-  | KFile, KFile | KEmptyDir, KEmptyDir | KFullDir, KFullDir | KDangling, KDangling => true
+  | KFile, KFile | KLink, KLink | KEmptyDir, KEmptyDir | KFullDir, KFullDir
+  | KDangling, KDangling => true
   | _, _ => false
   end.
 
 Definition stat_ok (k : okind) : bool := match k with KDangling => false | _ => true end.
 Definition remove_ok (k : okind) : bool := match k with KFullDir => false | _ => true end.
+(* open for reading / writing reaches a regular file *)
+Definition file_like (k : okind) : bool := match k with KFile | KLink => true | _ => false end.
 
 Record obj := mkObj { oname : bytes; omtime : Z; odata : bytes; okind_of : okind }.
 
-Record cdir := mkDir { subdirs : list (list obj); rootobjs : list obj; trimtxt : option bytes }.
+Record cdir := mkDir {
+  subdirs : list (option (list obj));
+  rootobjs : list obj;
+  trimtxt : option bytes;
+  trimblocked : bool }.
 
 Definition set_mtime (m : Z) (o : obj) : obj := mkObj (oname o) m (odata o) (okind_of o).
 
@@ -159,10 +169,16 @@ Fixpoint upd_nth {A} (i : nat) (f : A -> A) (l : list A) : list A :=
   | x :: r, S j => x :: upd_nth j f r
   end.
 
+(* an operation on the files of subdirectory i; nothing happens when it does not exist *)
 Definition upd_subdir (i : nat) (f : list obj -> list obj) (c : cdir) : cdir :=
-  mkDir (upd_nth i f (subdirs c)) (rootobjs c) (trimtxt c).
+  mkDir (upd_nth i (option_map f) (subdirs c)) (rootobjs c) (trimtxt c) (trimblocked c).
 
-Definition subdir (i : nat) (c : cdir) : list obj := nth i (subdirs c) [].
+Definition present (i : nat) (c : cdir) : bool :=
+  match nth i (subdirs c) None with Some _ => true | None => false end.
+
+(* the files of subdirectory i (none when it does not exist) *)
+Definition subdir (i : nat) (c : cdir) : list obj :=
+  match nth i (subdirs c) None with Some l => l | None => [] end.
 
 (* ------------------------------------------------------------------ used *)
 
@@ -198,10 +214,11 @@ Definition trim_removes (cutoff : gotime) (o : obj) : bool :=
 Definition trim_subdir (cutoff : gotime) (l : list obj) : list obj :=
   filter (fun o => negb (trim_removes cutoff o)) l.
 
-(* for i := range 256 { c.trimSubdir(filepath.Join(c.dir, "%02x" i), cutoff) } *)
-Definition trim_subdirs (cutoff : gotime) (sds : list (list obj)) : list (list obj) :=
+(* for i := range 256 { c.trimSubdir(filepath.Join(c.dir, "%02x" i), cutoff) }; a
+   subdirectory that cannot be opened is skipped (trimSubdir returns) *)
+Definition trim_subdirs (cutoff : gotime) (sds : list (option (list obj))) : list (option (list obj)) :=
   let n := Z.to_nat trim_subdir_count in
-  map (trim_subdir cutoff) (firstn n sds) ++ skipn n sds.
+  map (option_map (trim_subdir cutoff)) (firstn n sds) ++ skipn n sds.
 
 (* the test at the top of Trim: true = the scan runs.
      if data, err := lockedfile.Read(trim.txt); err == nil {
@@ -222,76 +239,128 @@ Definition trim_due (now : Z) (record : option bytes) : bool :=
 
 Definition trim_cutoff (now : Z) : gotime := time_add (time_of_ns now) cutoff_offset.
 
+(* what lockedfile.Read(trim.txt) yields: None when err != nil (missing, or not readable) *)
+Definition read_record (c : cdir) : option bytes :=
+  if trimblocked c then None else trimtxt c.
+
+(* Trim.  No failure inside the scan aborts it (a subdirectory that cannot be opened, a Stat
+   or Remove that fails are skipped); the only error Trim returns is that of the final
+   lockedfile.Write, and then trim.txt stays as it was. *)
 Definition trim (now : Z) (c : cdir) : cdir :=
-  if trim_due now (trimtxt c) then
+  if trim_due now (read_record c) then
     mkDir (trim_subdirs (trim_cutoff now) (subdirs c)) (rootobjs c)
-          (Some (decimal (time_unix_seconds (time_of_ns now))))
+          (if trimblocked c then trimtxt c
+           else Some (decimal (time_unix_seconds (time_of_ns now))))
+          (trimblocked c)
   else c.
+
+(* Trim's return value: true = a non-nil error *)
+Definition trim_err (now : Z) (c : cdir) : bool :=
+  trim_due now (read_record c) && trimblocked c.
+
+(* A Trim that stopped somewhere (the process was killed, the machine went down): [done i o]
+   says whether the removal of object o of subdirectory i had been carried out.  trim.txt is
+   written last, so it is unchanged.  Every order in which subdirectories and names are
+   processed, and every stopping point, is an instance ([trim_prefix]: the first k
+   subdirectories were completed). *)
+Definition trim_partial (done : nat -> obj -> bool) (now : Z) (c : cdir) : cdir :=
+  if trim_due now (read_record c) then
+    mkDir (map (fun p => option_map (filter (fun o => negb (trim_removes (trim_cutoff now) o && done (fst p) o
+                                                            && Nat.ltb (fst p) (Z.to_nat trim_subdir_count)))) (snd p))
+               (combine (seq 0 (length (subdirs c))) (subdirs c)))
+          (rootobjs c) (trimtxt c) (trimblocked c)
+  else c.
+
+Definition trim_prefix (k : nat) : Z -> cdir -> cdir :=
+  trim_partial (fun i _ => Nat.ltb i (Nat.min k (Z.to_nat trim_subdir_count))).
 
 (* ------------------------------------------------------------------ histories *)
 
 (* What the other cache operations do to mtimes (their results are modelled in group Cache):
    Get calls used on the index file of a parsable entry; GetFile/GetBytes additionally call
-   OutputFile, i.e. used on the data file (whether or not it exists); Put (re)writes the index
-   file and sets its mtime to now, and writes the data file and sets its mtime to now — unless a
-   file with the right content is already there.  In that case the code as it stood returned
-   without touching the mtime ([refresh] = false: a data file stored long ago and re-stored
-   now is removed by the next Trim); the repaired code calls used on it ([refresh] = true). *)
+   OutputFile, i.e. used on the data file (whether or not it exists); Put writes the data
+   file and sets its mtime to now — unless a file with the right content is already there — and
+   then (re)writes the index file and sets its mtime to now.  When the output was already
+   there the code as it stood returned without touching the mtime ([refresh] = false: a data
+   file stored long ago and re-stored now is removed by the next Trim); the repaired code
+   calls used on it ([refresh] = true). *)
 
 Definition has_name (name : bytes) (l : list obj) : bool :=
   existsb (fun o => bytes_eqb (oname o) name) l.
 
-(* create the file, or overwrite a regular file of that name; anything else of that name is
-   in the way and stays (the Put fails) *)
+(* create the file, or overwrite the regular file (possibly behind a link) of that name;
+   anything else of that name is in the way and stays (the Put fails) *)
+Definition put_over (now : Z) (name data : bytes) (o : obj) : obj :=
+  if file_like (okind_of o) then mkObj name now data (okind_of o) else o.
+
 Definition put_file (now : Z) (name data : bytes) (l : list obj) : list obj :=
-  if has_name name l then
-    map (on_name name (fun o => match okind_of o with
-                                | KFile => mkObj name now data KFile
-                                | _ => o
-                                end)) l
+  if has_name name l then map (on_name name (put_over now name data)) l
   else l ++ [mkObj name now data KFile].
 
 Definition has_content (name data : bytes) (l : list obj) : bool :=
-  existsb (fun o => bytes_eqb (oname o) name && okind_eqb (okind_of o) KFile
+  existsb (fun o => bytes_eqb (oname o) name && file_like (okind_of o)
                     && bytes_eqb (odata o) data) l.
 
-Definition store_data (refresh : bool) (now : Z) (name data : bytes) (l : list obj) : list obj :=
+(* copyFile.  When the output is there already: used (repaired code) or nothing.  Otherwise the
+   file is (re)created and gets the time [dnow]: for a non-empty output that is the cache's
+   clock (os.Chtimes(name, c.now(), c.now()) after the copy); for an EMPTY output copyFile
+   returns right after os.OpenFile ("if size == 0 { return nil }"), without Chtimes, and the
+   new file carries the file system's own clock.  In production both are the same clock. *)
+Definition store_data (refresh : bool) (now dnow : Z) (name data : bytes) (l : list obj) : list obj :=
   if has_content name data l then
     (if refresh then map (on_name name (used_obj now)) l else l)
-  else put_file now name data l.
+  else put_file dnow name data l.
 
+(* EGet: Get found the entry.  ELookup: GetFile / GetBytes whose Get part found the entry.
+   EOutput: OutputFile.  EStore: a Put that returned nil.  EStoreData: a Put whose data part
+   was carried out and whose index part failed (the index subdirectory is missing); a Put that
+   fails earlier changes nothing and is no event.  ETrim: Trim. *)
 Inductive event :=
 | EGet (u : Z) (ia : nat) (na : bytes)
 | ELookup (u : Z) (ia : nat) (na : bytes) (id : nat) (nd : bytes)
-| EStore (u : Z) (ia : nat) (na da : bytes) (id : nat) (nd dd : bytes)
+| EOutput (u : Z) (id : nat) (nd : bytes)
+| EStore (u ud : Z) (ia : nat) (na da : bytes) (id : nat) (nd dd : bytes)
+| EStoreData (u ud : Z) (id : nat) (nd dd : bytes)
 | ETrim (u : Z).
 
 Definition etime (e : event) : Z :=
   match e with
-  | EGet u _ _ | ELookup u _ _ _ _ | EStore u _ _ _ _ _ _ | ETrim u => u
+  | EGet u _ _ | ELookup u _ _ _ _ | EOutput u _ _ | EStore u _ _ _ _ _ _ _
+  | EStoreData u _ _ _ _ | ETrim u => u
   end.
 
-(* the event is a use of the file [name] of subdirectory [i] *)
+(* the event is a use of the file [name] of subdirectory [i]: Get uses the index file only,
+   GetFile / GetBytes the index and the data file, OutputFile the data file, a successful
+   Put both; a failed Put is not a use *)
 Definition uses (e : event) (i : nat) (name : bytes) : Prop :=
   match e with
   | EGet _ ia na => ia = i /\ na = name
   | ELookup _ ia na id nd => (ia = i /\ na = name) \/ (id = i /\ nd = name)
-  | EStore _ ia na _ id nd _ => (ia = i /\ na = name) \/ (id = i /\ nd = name)
+  | EOutput _ id nd => id = i /\ nd = name
+  | EStore _ _ ia na _ id nd _ => (ia = i /\ na = name) \/ (id = i /\ nd = name)
+  | EStoreData _ _ _ _ _ => False
   | ETrim _ => False
   end.
 
+(* the public lookups, by the files they refresh *)
+Definition api_get (u : Z) (ia : nat) (na : bytes) (c : cdir) : cdir := used u ia na c.
+Definition api_output_file (u : Z) (id : nat) (nd : bytes) (c : cdir) : cdir := used u id nd c.
+(* GetFile and GetBytes: Get, then OutputFile *)
 Definition lookup (u : Z) (ia : nat) (na : bytes) (id : nat) (nd : bytes) (c : cdir) : cdir :=
-  used u id nd (used u ia na c).
+  api_output_file u id nd (api_get u ia na c).
 
-Definition store (refresh : bool) (u : Z) (ia : nat) (na da : bytes) (id : nat) (nd dd : bytes)
+(* Put: copyFile (data), then putIndexEntry *)
+Definition store (refresh : bool) (u ud : Z) (ia : nat) (na da : bytes) (id : nat) (nd dd : bytes)
     (c : cdir) : cdir :=
-  upd_subdir id (store_data refresh u nd dd) (upd_subdir ia (put_file u na da) c).
+  upd_subdir ia (put_file u na da) (upd_subdir id (store_data refresh u ud nd dd) c).
 
 Definition step (refresh : bool) (c : cdir) (e : event) : cdir :=
   match e with
-  | EGet u ia na => used u ia na c
+  | EGet u ia na => api_get u ia na c
   | ELookup u ia na id nd => lookup u ia na id nd c
-  | EStore u ia na da id nd dd => store refresh u ia na da id nd dd c
+  | EOutput u id nd => api_output_file u id nd c
+  | EStore u ud ia na da id nd dd => store refresh u ud ia na da id nd dd c
+  | EStoreData u ud id nd dd => upd_subdir id (store_data refresh u ud nd dd) c
   | ETrim u => trim u c
   end.
 
@@ -305,8 +374,17 @@ Definition clock_ok (now : Z) : Prop := 0 <= now < two63.
 (* an mtime whose seconds time.Unix converts without wrapping: year -292277022399 .. +292277026596 *)
 Definition ns_ok (m : Z) : Prop := - two63 <= m / nano + unix_to_internal < two63.
 
+(* an event's times: the cache's clock, and for a store the time a created data file gets
+   (the same clock in production; never more than mtimeInterval behind it) *)
+Definition ev_ok (e : event) : Prop :=
+  clock_ok (etime e) /\
+  match e with
+  | EStore u ud _ _ _ _ _ _ | EStoreData u ud _ _ _ => clock_ok ud /\ u - mtime_interval <= ud
+  | _ => True
+  end.
+
 Definition dir_ok (c : cdir) : Prop :=
-  forall l o, In l (subdirs c) -> In o l -> ns_ok (omtime o).
+  forall l o, In (Some l) (subdirs c) -> In o l -> ns_ok (omtime o).
 
 (* the last-trim record is one for which Trim returns at once: it parses, and the recorded
    second t satisfies  -mtimeInterval < now - t*10^9 < trimInterval  *)
@@ -314,7 +392,8 @@ Definition record_in_window (now : Z) (record : option bytes) : Prop :=
   exists data t, record = Some data /\ parse_int (trim_space data) = Some t /\
                  - mtime_interval < now - t * nano < trim_interval.
 
-(* every other record: missing, corrupt, a day or more old, an hour or more in the future *)
+(* every other record: missing or unreadable, corrupt, a day or more old, an hour or more in
+   the future *)
 Definition record_stale (now : Z) (record : option bytes) : Prop :=
   record = None \/
   exists data, record = Some data /\
@@ -324,15 +403,54 @@ Definition record_stale (now : Z) (record : option bytes) : Prop :=
 
 (* what a Trim that runs leaves behind *)
 Definition trimmed (now : Z) (c : cdir) : cdir :=
-  mkDir (trim_subdirs (trim_cutoff now) (subdirs c)) (rootobjs c) (Some (decimal (now / nano))).
+  mkDir (trim_subdirs (trim_cutoff now) (subdirs c)) (rootobjs c)
+        (if trimblocked c then trimtxt c else Some (decimal (now / nano))) (trimblocked c).
 
 Definition non_entry (o : obj) : bool := negb (is_entry_name (oname o)).
 
 (* for the code as it stood: the store event refreshes the file (i, n) *)
 Definition store_refreshes (c : cdir) (e : event) (i : nat) (n : bytes) : Prop :=
   match e with
-  | EStore u ia na da id nd dd =>
-      (ia = i /\ na = n) \/
-      has_content nd dd (subdir id (upd_subdir ia (put_file u na da) c)) = false
+  | EStore u ud ia na da id nd dd =>
+      (ia = i /\ na = n) \/ has_content nd dd (subdir id c) = false
   | _ => True
   end.
+
+(* ------------------------------------------------------------------ the history statement, executable *)
+
+Definition has_file (name : bytes) (l : list obj) : bool :=
+  existsb (fun o => bytes_eqb (oname o) name && okind_eqb (okind_of o) KFile) l.
+
+(* the files an event uses, as (subdirectory, name) *)
+Definition used_files (e : event) : list (nat * bytes) :=
+  match e with
+  | EGet _ ia na => [(ia, na)]
+  | ELookup _ ia na id nd => [(ia, na); (id, nd)]
+  | EOutput _ id nd => [(id, nd)]
+  | EStore _ _ ia na _ id nd _ => [(ia, na); (id, nd)]
+  | EStoreData _ _ _ _ _ => []
+  | ETrim _ => []
+  end.
+
+(* [tracked]: files used at time u and present since; each must still be a regular file after
+   every later event as long as the event times stay within [u, u + limit] *)
+Fixpoint holds_from (refresh : bool) (limit : Z) (tracked : list (nat * bytes * Z)) (c : cdir)
+    (h : list event) : bool :=
+  match h with
+  | [] => true
+  | e :: h' =>
+      let c' := step refresh c e in
+      let t := etime e in
+      let still := filter (fun x => (snd x <=? t) && (t <=? snd x + limit)) tracked in
+      let fresh := map (fun p => (p, t))
+                       (filter (fun p => has_file (snd p) (subdir (fst p) c')) (used_files e)) in
+      forallb (fun x => has_file (snd (fst x)) (subdir (fst (fst x)) c')) still
+      && holds_from refresh limit (fresh ++ still) c' h'
+  end.
+
+(* the number in the property text *)
+Definition stated_limit : Z := 5 * 24 * 3600 * nano.
+
+(* "whatever was stored or looked up within the last five days is still there", evaluated on
+   a directory and a history, for the repaired Put *)
+Definition c13_holds_on (c : cdir) (h : list event) : bool := holds_from true stated_limit [] c h.
